@@ -90,6 +90,22 @@ def crash_raw(detail):
     return last
 
 
+def harness_frame_first(detail):
+    """the innermost non-runtime frame of the dying goroutine is harness code, not the SDK"""
+    seen_g = False
+    for line in (detail or "").splitlines():
+        if line.startswith("goroutine "):
+            seen_g = True
+            continue
+        if not seen_g or line.startswith("\t") or line.startswith(" "):
+            continue
+        if line.startswith("go.flow.arcalot.io/pluginsdk/"):
+            return False
+        if line.startswith("main."):
+            return True
+    return False
+
+
 def small(case):
     """the replayable core of a case (without the bulk of states that are not needed)"""
     return case
@@ -102,6 +118,9 @@ def consume(ctx, cases, results, stats, name):
         if res.get("crash"):
             if not res.get("reproduced"):
                 raise common.Infra("unreproduced worker %s on case %s" % (res["crash"], json.dumps(case)[:300]))
+            if harness_frame_first(res.get("detail", "")):
+                raise common.Infra("the driver itself died (%s) on case %s:\n%s" % (res["crash"], json.dumps(case)[:300],
+                                                                                   res.get("detail", "")[:1500]))
             raw = crash_raw(res.get("detail", ""))
             deep = None
             if raw and raw.startswith("deep:"):
@@ -117,7 +136,7 @@ def consume(ctx, cases, results, stats, name):
             else:
                 stats["crash_inputs"] = stats.get("crash_inputs", 0) + 1
                 ctx.violation(dict(op="unserialize", **{"class": "crash_" + res["crash"]}, frame=res.get("frame", "")),
-                              dict(case=dict(case, only=[raw]), crash=res["crash"], input=raw,
+                              dict(case=small(case), crash=res["crash"], input=raw,
                                    note="a finite input on a self-referential object graph kills the process",
                                    detail=res.get("detail", "")[:2500]))
             if raw is not None and not case.get("skip_loops"):
@@ -233,8 +252,8 @@ def run(ctx):
     if nstate != r.distinct:
         raise common.Infra("TLC found %d distinct states but exported %d state lines" % (r.distinct, nstate))
     ctx.exhaustive = True
-    gen_n = 60 if thorough else 25
-    deep = [50, 1000, 10000, 100000] if thorough else [50, 1000, 10000]
+    gen_n = 60 if thorough else 20
+    deep = [50, 200, 1000, 10000, 100000] if thorough else [50, 200, 1000, 10000]
     ncalls = 0
     for i, c in enumerate(cases):
         c["gen"] = dict(seed=ctx.seed * 1000003 + i, n=gen_n, deep=deep)
@@ -251,7 +270,7 @@ def run(ctx):
 
     # the harness inliner against Scopes!Inline (single worker: these lines are long)
     vec2 = os.path.join(ctx.tmp, "scopes-inl.ndjson")
-    r2 = ctx.tlc("ScopesMC", "scopes_inl.cfg", workers=1, env={"VERIF_OUT": vec2}, timeout=1200)
+    r2 = ctx.tlc("ScopesMC", "scopes_inl_thorough.cfg" if thorough else "scopes_inl.cfg", workers=1, env={"VERIF_OUT": vec2}, timeout=1200)
     cases2, _ = group(common.read_ndjson(vec2), ctx)
     os.remove(vec2)
     for c in cases2:
@@ -263,7 +282,7 @@ def run(ctx):
     # code -> spec: seeded random runs on bigger trees
     nruns = 1500 if thorough else 220
     rcases = [dict(op="rand", seed=ctx.seed * 100000 + i, size=1 + i % 3, n=(30 if thorough else 12),
-                   deep=([50, 2000] if i % 4 == 0 else [])) for i in range(nruns)]
+                   deep=([50, 200, 2000] if i % 4 == 0 else [])) for i in range(nruns)]
     runs = run_cases(ctx, rcases, stats, "rand")
     ctx.sample(rcases[0])
     validate_traces(ctx, runs, stats)
@@ -288,19 +307,16 @@ def replay(ctx, rp):
     ctx.rule = "replay of one recorded case"
     if "case" in rep:
         case = dict(rep["case"])
-        only = case.pop("only", None)
-        if only and case.get("canon"):
-            # a crashing input: run just that one (model inputs are matched by their canonical text in the driver)
-            case["states"] = []
-        results = run_driver(ctx, [case], "replay")
-        consume(ctx, [case], results, stats, "replay")
+        case.pop("skip_loops", None)
+        runs = run_cases(ctx, [case], stats, "replay")
+        if case.get("op") == "rand":
+            validate_traces(ctx, runs, stats)
         ctx.sample(dict(tid=case.get("tid"), seed=case.get("seed")))
         return
     if "trace" in rep:
         seed = rep.get("seed")
         rc = [dict(op="rand", seed=seed, size=1 + (seed % 100000) % 3, n=0, deep=[])]
-        results = run_driver(ctx, rc, "replay")
-        runs, _ = consume(ctx, rc, results, stats, "replay")
+        runs = run_cases(ctx, rc, stats, "replay")
         validate_traces(ctx, runs, stats)
         ctx.sample(rc[0])
         return
